@@ -340,6 +340,7 @@ func main() {
 	extractEffects(loadedPkgs)
 	facts.Read = readFacts
 	extractCost(pkgs)
+	extractClient(pkgs)
 
 	js, _ := json.MarshalIndent(facts, "", " ")
 	if outJSON != "" {
